@@ -93,7 +93,13 @@ fn labels(u: &mut Unstructured, ctx: &mut Ctx) -> CaseResult {
             law!(ctx, (oa == ob) == (a == b), "ownedlabel:eq-differs-from-label", "{}", detail());
             law!(ctx, oa.cmp(ob) == want, "ownedlabel:cmp-differs-from-label", "{}", detail());
             law!(ctx, oa.partial_cmp(ob) == Some(want), "ownedlabel:partial_cmp", "{}", detail());
-            law!(ctx, h2(oa) == h2(a), "ownedlabel:hash-differs-from-label", "{}", detail());
+            // OwnedLabel: Borrow<Label>, so it must hash exactly like the
+            // Label it holds, for every hasher (h2 includes two hashers
+            // that see how the input is chopped into Hasher calls)
+            law!(ctx, h2(oa) == h2(a), "ownedlabel:hash-differs-from-label", "{} ({})", detail(), hdiff(h2(oa), h2(a)));
+            if want == Ordering::Equal {
+                law!(ctx, h2(oa) == h2(ob) && h2(oa) == h2(b), "ownedlabel:equal-but-hash-differs", "{} ({})", detail(), hdiff(h2(oa), h2(b)));
+            }
             if raw[i] != raw[j] {
                 if want == Ordering::Equal {
                     ctx.class("label:case-pair");
@@ -112,6 +118,26 @@ fn labels(u: &mut Unstructured, ctx: &mut Ctx) -> CaseResult {
                     }
                 }
             }
+        }
+        // the Borrow entry point: maps keyed by OwnedLabel (the zone tree's
+        // children maps) are queried with the &Label of a query name
+        {
+            use std::collections::{BTreeMap as BM, HashMap};
+            use std::hash::BuildHasherDefault;
+            let want = (0..3).find(|&k| ref_label_cmp(&raw[k], &raw[i]) == Ordering::Equal);
+            let mut m1: HashMap<OwnedLabel, usize, BuildHasherDefault<DefaultHasher>> = HashMap::default();
+            let mut m2: HashMap<OwnedLabel, usize, ChunkBuild> = HashMap::default();
+            let mut m3: HashMap<OwnedLabel, usize, BuildHasherDefault<WordHasher>> = HashMap::default();
+            let mut m4: BM<OwnedLabel, usize> = BM::new();
+            for (k, o) in owned.iter().enumerate() {
+                m1.entry(*o).or_insert(k);
+                m2.entry(*o).or_insert(k);
+                m3.entry(*o).or_insert(k);
+                m4.entry(*o).or_insert(k);
+            }
+            let got = [m1.get(ls[i]).copied(), m2.get(ls[i]).copied(), m3.get(ls[i]).copied(), m4.get(ls[i]).copied()];
+            law!(ctx, got.iter().all(|g| *g == want), "ownedlabel:map-lookup-by-label", "keys {} | {} | {} queried with label {}: [siphash, call-sequence, word-at-a-time, btree] found {got:?} want {want:?}", hex(&raw[0]), hex(&raw[1]), hex(&raw[2]), hex(&raw[i]));
+            ctx.class("label:borrow-lookup");
         }
         let mut canon = vec![];
         ls[i].compose_canonical(&mut canon).unwrap();
